@@ -460,7 +460,7 @@ class C08(_AppSpec):
                  "block kinds and nesting, text, inline kinds, link/image targets, code content, raw HTML; whitespace, marker characters, list numbers, code-block style, heading level and adjacent-list boundaries are projected out; "
                  "paths where pymarkdown's HTML already differs from the reference are skipped (C03); distinct = distinct fingerprints")
     stubs = _STUBS + ["reference parser markdown-it-py (vendored) executed symbolically on the original and the fixed text"]
-    assumptions = ["cells range over the C03 domain (U+0009, U+000A, U+0020-U+007E, U+00E9, U+03B1, U+1F600)"] + _ASSUME[1:]
+    assumptions = ["cells range over the C03 domain (U+0009, U+000A, U+0020-U+007E, U+00E9, U+03B1, U+4E2D)"] + _ASSUME[1:]
 
     def shards(self, tier):
         out = []
